@@ -143,7 +143,7 @@ def build_call(op, rng, H, W):
         spec['kwargs'] = dict(kernel=spec['kernel'], stats_funcs=st)
     elif op == 'hotspots':
         spec['f'] = focal.hotspots; a = _raster(rng, max(H, 3), max(W, 3))[2]
-        if a.dtype.kind == 'f' and rng.random() < 0.35:
+        if a.dtype.kind == 'f' and rng.random() < 0.6:
             # plateau: mean large against the spread (single-pass variance formulas cancel catastrophically here)
             a = (float(rng.choice([2500.0, 900.0, 12000.0])) + rng.uniform(0, 4, a.shape)).astype(a.dtype)
         for _ in range(int(rng.integers(0, 3))):
